@@ -345,7 +345,15 @@ def classify(c, o):
 
 
 def run(ctx):
+    import time
+    phases, t0 = {}, [time.time()]
+
+    def mark(name):
+        phases[name] = round(phases.get(name, 0) + time.time() - t0[0], 1)
+        t0[0] = time.time()
+        ctx.cov["phase_seconds"] = phases
     pr = ctx.prove()
+    mark("prove")
     ctx.cov["trusted_base"] = ["Coq 8.16.1 kernel + vm_compute (primitive Uint63 in ToyHash only)", "Go toolchain",
                                "engine harness/engines/trie, generator lib/trie_gen.py", "aergo-lib memory DB"]
     ctx.assumptions = ["batches are strictly sorted by key, non-empty, keys 32 bytes, values 32 bytes or DefaultLeaf (what stateBuffer.export produces)",
@@ -366,6 +374,7 @@ def run(ctx):
     if len(lines) != len(cases):
         raise RuntimeError("engine returned %d observations for %d cases" % (len(lines), len(cases)))
     obs = [json.loads(l) for l in lines]
+    mark("engine build + run")
     fails = predicates(cases, obs)
     if crashed is not None:
         fails.insert(0, ("crash", "the trie panics (process killed) on this op sequence", slim(crashed)))
@@ -375,6 +384,7 @@ def run(ctx):
     rest = [x for x in toy if x[0].get("shape") not in ("corpus", "exh")]
     ksel += rest[:(12 if ctx.tier == "quick" else 200)]
     err, bad = model_compare(ctx, ksel)
+    mark("kernel eval (tree model)")
     corr = None
     if err:
         corr = (err, [])
@@ -387,7 +397,9 @@ def run(ctx):
     elif bad3:
         corr = corr or ("batch-storage model (vm_compute) differs from the implementation's roots or from the tree model on %d cases" % len(bad3),
                         [dict(case=slim(c), impl_roots=o["roots"]) for c, o in bad3[:3]])
+    mark("kernel eval (batch model)")
     err2, bad2 = model_compare_extracted(ctx, toy)
+    mark("extracted model (build + run)")
     if err2:
         corr = corr or (err2, [])
     elif bad2:
@@ -409,11 +421,13 @@ def run(ctx):
             fails.append(("data-race", "the Go race detector reports a data race in pkg/trie on these op sequences", {"log": rlog}))
         elif rlog:
             fails.append(("race-run-error", "the race-enabled engine failed", {"log": rlog}))
+    mark("race detector run")
     # ---- Revert / Stash / LoadCache
     exe_r, _ = tg.build_driver(ctx)
     rfails, rcorr = revert_check(ctx, binp, exe_r)
     fails += rfails
     corr = corr or rcorr
+    mark("revert")
     # evidence
     nb = sum(len(c["batches"]) for c in cases)
     ctx.cov["evaluations"] = nb
